@@ -5,6 +5,9 @@ use crate::run::{Part, Plan};
 
 pub mod common;
 pub mod c04;
+pub mod c05;
+pub mod c14;
+pub mod chat;
 
 pub fn threads() -> usize {
     std::env::var("VERIF_THREADS")
@@ -26,6 +29,9 @@ pub fn plan(property: &str, tier: &str) -> Option<Plan> {
     let quick = tier != "thorough";
     match property {
         "C04" => Some(c04::plan(quick)),
+        "C05" => Some(c05::plan(quick)),
+        "C14" => Some(c14::plan(quick)),
+        "C01" | "C07" | "C08" | "C09" | "C10" | "C15" | "C16" => Some(chat::plan(property, quick)),
         _ => None,
     }
 }
@@ -49,3 +55,11 @@ pub fn find_scenario(property: &str, name: &str) -> Option<Box<dyn Scenario>> {
 pub const ALL: &[&str] = &[
     "C01", "C02", "C03", "C04", "C05", "C06", "C07", "C08", "C09", "C10", "C11", "C12", "C13", "C14", "C15", "C16", "C17", "C18", "C19", "C20",
 ];
+
+pub fn replay_fun(property: &str, scenario: &str, input: &serde_json::Value) -> Vec<crate::check::Finding> {
+    match property {
+        "C14" => c14::replay_fun(scenario, input),
+        "C07" | "C08" | "C16" => chat::replay_fun(property, scenario, input),
+        _ => vec![],
+    }
+}
